@@ -118,8 +118,12 @@ func runC05(s c05Scen, c *ev.Case) *ev.Violation {
 		}
 		// end of the first connection
 		endKind := l.End
-		if endKind == "disconnect_expiry" && (eff == 0 && l.NewExpiry != 0 || l.NewExpiry > s.CfgExpiryS) {
-			endKind = "disconnect" // would be a protocol error / above the configured maximum: not generated
+		if endKind == "disconnect_expiry" && eff == 0 && l.NewExpiry != 0 {
+			// protocol error [MQTT-3.14.2-2 / 3.14.2.2.2]: a session whose expiry is 0 cannot be given a lifetime at
+			// DISCONNECT; the request must not take effect, the session ends with the connection
+			endKind = "disconnect_bad_expiry"
+		} else if endKind == "disconnect_expiry" && l.NewExpiry > s.CfgExpiryS {
+			endKind = "disconnect" // above the configured maximum: precondition, not generated
 		}
 		var end ival
 		end.lo = time.Now()
@@ -132,6 +136,12 @@ func runC05(s c05Scen, c *ev.Case) *ev.Violation {
 			cl.Kill()
 			eff = l.NewExpiry
 			o.labels = append(o.labels, "expiry_updated_at_disconnect")
+		case "disconnect_bad_expiry":
+			_ = cl.Send(&mw.Packet{Type: mw.DISCONNECT, Props: &mw.Props{SessionExpiry: u32p(uint32(l.NewExpiry))}})
+			cl.WaitClosed(2 * time.Second)
+			cl.Kill()
+			o.labels = append(o.labels, "disconnect_expiry_on_zero_expiry_session")
+			o.nontrivial = true
 		case "kill":
 			cl.Kill()
 		}
